@@ -459,12 +459,50 @@ pub fn run(tier: Tier) -> i32 {
         }
         std::process::exit(0);
     }
+    // third window: slot 1 and slot 4 hold finalized blocks (4 builds on 1), slots 2-3 and 5-7 were
+    // skipped; the Byzantine validator leads window 2 and may propose on ANY parent - correct nodes
+    // must only accept the one parent their pools announce (the finalized block of slot 4)
+    {
+        use crate::cluster::PrefixOp;
+        let k4b = Arc::new(make_epoch(&[27, 19, 27, 27]));
+        let g = GENESIS;
+        let mut sys = ClusterSys::new(
+            "K4-third-window-byzantine-leader-forks-below-a-finalized-block",
+            k4b,
+            vec![0, 2, 3],
+            1,
+            ClusterAlphabet {
+                byz_votes: vec![
+                    VoteSpec { kind: N, slot: 8, blk: 0, signer: 1 },
+                    VoteSpec { kind: N, slot: 8, blk: 1, signer: 1 },
+                ],
+                forge: vec![],
+                blocks: vec![(b(1, 0), g), (b(4, 0), b(1, 0)), (b(8, 0), b(4, 0)), (b(8, 1), b(1, 0)), (b(8, 2), g)],
+                invalid: vec![],
+                windows: vec![8],
+            },
+        );
+        sys.prefix = vec![PrefixOp::BlockToAll(0), PrefixOp::DeliverAll];
+        for _ in 0..5 {
+            sys.prefix.push(PrefixOp::TimersOnce(0));
+            sys.prefix.push(PrefixOp::DeliverAll);
+        }
+        sys.prefix.extend([PrefixOp::BlockToAll(1), PrefixOp::DeliverAll]);
+        for _ in 0..5 {
+            sys.prefix.push(PrefixOp::TimersOnce(4));
+            sys.prefix.push(PrefixOp::DeliverAll);
+        }
+        sys.max_msgs = 96;
+        clusters.push(sys);
+    }
     let cdepth = tier.pick(4, 8);
     for inner in clusters {
         // every transition is judged as before; in addition every new state is completed fairly
         // (two orders) and the completed world is judged for agreement
         // per-transition judgement to the full cluster depth first (cheap) ...
-        let limits = BfsLimits::new(cdepth, tier.pick(400_000, 30_000_000), tier.pick(10, 150));
+        // the third-window system replays a long start-state prefix for every expansion: one level less
+        let plain_depth = if inner.name.contains("third-window") { cdepth - 1 } else { cdepth };
+        let limits = BfsLimits::new(plain_depth, tier.pick(400_000, 30_000_000), tier.pick(10, 150));
         let plain = bfs(&inner, &inner.name, &limits, &report);
         println!("  {}: states={} transitions={} depth_completed={} capped={:?} (per-transition oracle only)", inner.name, plain.states, plain.transitions, plain.depth_completed, plain.capped);
         plain.merge_into(&mut total);
